@@ -54,8 +54,10 @@ def processLine (st : Stats) (lineNo : Nat) (line : String) : IO (Stats × Optio
         | some v, some sok =>
           let st := { st with classes := bump st.classes (op ++ ":" ++ v.cls) }
           if !sok then
+            let y ← h.why args impl
+            let y := if y.isEmpty then "" else "[" ++ y ++ "] "
             return ({ st with specFail := st.specFail + 1 },
-             some s!"SPECFAIL {lineNo} {lhsShort} => impl {showInts (impl.take 64)} model {showInts (v.model.take 64)}")
+             some s!"SPECFAIL {lineNo} {y}{lhsShort} => impl {showInts (impl.take 64)} model {showInts (v.model.take 64)}")
           else if !v.relational && v.model != impl then
             return ({ st with modelDiff := st.modelDiff + 1 },
              some s!"MODELDIFF {lineNo} {lhsShort} => impl {showInts (impl.take 64)} model {showInts (v.model.take 64)}")
